@@ -333,6 +333,10 @@ func runSession(t *tlog, o sessionOpts, rng *rand.Rand) (stats map[string]int, e
 				t.add(event{Ev: "ipanic"})
 			}
 			t.add(event{Ev: "enter", Kind: kind, H: h, K: k, Wk: wk, Wnext: kind != "bg" && !gp && next(k)})
+			if o.end == "backlog" && kind == "conn" && h == "f1" {
+				// a slow CONNECTED handler: the lines after the welcome must wait for it
+				time.Sleep(20 * time.Millisecond)
+			}
 			if gateK != 0 && k == gateK && kind == "fg" && h == "f1" {
 				enteredOnce.Do(func() { close(entered) })
 				hold := 400 * time.Millisecond
@@ -511,7 +515,7 @@ func RunPhases(args []string) int {
 		}
 		if i%16 == 9 {
 			// a backlog beyond the capacity of the receive queue builds up behind one slow foreground handler
-			o.end, o.misbe, o.lines = "backlog", false, 80+rng.Intn(60)
+			o.end, o.misbe, o.lines, o.tracking = "backlog", false, 80+rng.Intn(60), true
 		}
 		if i%16 == 5 {
 			o.end, o.misbe, o.tracking = "reconnect", false, true
